@@ -58,6 +58,10 @@ pub fn run_cases(cases_path: &str, out_path: &str, workdir: &str) {
 			let ee = ee.build(&ca).map_err(e)?;
 			ee.serialize_pem().write(&dir, "ee").map_err(|x| x.to_string())?;
 			ca.serialize_pem().write(&dir, "ca").map_err(|x| x.to_string())?;
+			// Ca::cert() is the certificate that serialize_pem() writes
+			if Some(ca.cert().der().to_vec()) != pemx::decode_strict(&ca.serialize_pem().cert_pem) {
+				return Err("Ca::cert() differs from the certificate in serialize_pem()".into());
+			}
 			Ok(())
 		});
 		let args = json!({"calls": calls});
